@@ -55,6 +55,10 @@ struct RunCfg {
     /// writing the CSV
     #[serde(default)]
     io_seed: Option<u64>,
+    /// hard I/O fault: (true, n) = writes to the CSV fail with ENOSPC after n bytes (full disk);
+    /// (false, permille) = reads of the MIDAS files fail with EIO after that share of their bytes
+    #[serde(default)]
+    io_hard: Option<(bool, u64)>,
 }
 
 #[derive(Clone, Debug, Serialize, Deserialize, PartialEq)]
@@ -365,11 +369,12 @@ impl Check for C19Check {
                 real_rayon: false,
                 sched_replay: None,
                 io_seed: if r.chance(1, 3) { Some(r.next_u64() >> 1) } else { None },
+                io_hard: None,
             })
             .collect();
         if (tier == Tier::Thorough && index % 4 == 0) || (tier == Tier::Quick && index % 16 == 0) {
             // stub-fidelity cross-check on real threads
-            cfgs.push(RunCfg { argv_seed: r.next_u64(), threads: *r.pick(&[1u32, 2, 5, 16]), sched_seed: 0, hash_seed: r.next_u64() >> 1, verbose: false, real_rayon: true, sched_replay: None, io_seed: None });
+            cfgs.push(RunCfg { argv_seed: r.next_u64(), threads: *r.pick(&[1u32, 2, 5, 16]), sched_seed: 0, hash_seed: r.next_u64() >> 1, verbose: false, real_rayon: true, sched_replay: None, io_seed: None, io_hard: None });
         }
         let file_fault = if index % 7 == 3 {
             Some(match r.below(3) {
@@ -383,7 +388,39 @@ impl Check for C19Check {
         } else {
             None
         };
-        serde_json::to_value(Scn { run_number, t0: r.next_u32(), files, cfgs, file_fault }).unwrap()
+        let mut t0 = r.next_u32();
+        // boundary values of the 32-bit TRG counter: every third scenario places a decodable main
+        // event (not the last one, if possible) exactly on 0, 1, 2^31 or 2^32-1
+        if index % 3 == 1 {
+            let mut rb = Rng::new(seed ^ 0x7e57_0b0d);
+            let mut prefix = 0u64;
+            let mut at: Vec<u64> = Vec::new();
+            for e in files.iter().flat_map(|f| f.events.iter()) {
+                if is_main(&e.kind) {
+                    prefix += e.gap;
+                    if e.kind == "light" || e.kind == "full" {
+                        at.push(prefix);
+                    }
+                }
+            }
+            if !at.is_empty() {
+                let k = if at.len() > 1 && rb.chance(4, 5) { rb.usize(0, at.len() - 2) } else { rb.usize(0, at.len() - 1) };
+                let special = *rb.pick(&[0u32, 0, 0, 1, u32::MAX, 1 << 31]);
+                t0 = special.wrapping_sub(at[k] as u32);
+            }
+        }
+        // hard I/O faults (full disk while the CSV is written, EIO while a file is read): drawn
+        // from a separate stream so that the other scenario dimensions are unaffected
+        if index % 5 == 2 {
+            let mut rh = Rng::new(seed ^ 0x10_4a2d_5eed);
+            let k = rh.usize(0, 1);
+            cfgs[k].io_hard = Some(if rh.chance(1, 2) {
+                (true, *rh.pick(&[0u64, 1, 20, 60, 100]) + if rh.chance(1, 2) { rh.below(6000) } else { 0 })
+            } else {
+                (false, rh.below(1001))
+            });
+        }
+        serde_json::to_value(Scn { run_number, t0, files, cfgs, file_fault }).unwrap()
     }
 
     fn run(&self, scenario: &Value, stats: &mut Stats) -> Outcome {
@@ -450,6 +487,13 @@ impl Check for C19Check {
                         }
                         if d.is_none() {
                             stats.fault("undecodable_main_event");
+                        }
+                        if let Some((ts, _)) = d {
+                            match ts {
+                                0 => stats.probe("decodable_event_with_trg_counter_exactly_0"),
+                                1 | u32::MAX | 0x8000_0000 => stats.probe("decodable_event_with_trg_counter_1_or_2^31_or_2^32-1"),
+                                _ => {}
+                            }
                         }
                         vtx.push(VtxOracle { serial: *serial, decoded: d })
                     }
@@ -528,6 +572,7 @@ impl Check for C19Check {
                 sched_replay: sreplay,
                 real_rayon: cfg.real_rayon,
                 io_seed: cfg.io_seed,
+                io_hard: io_hard_of(cfg, &paths),
             };
             if cfg.io_seed.is_some() {
                 stats.fault("io_short_reads_writes_and_eintr");
@@ -558,6 +603,9 @@ impl Check for C19Check {
                     detail: format!("alpha-g-vertices was killed by a signal; stderr: {}", res.stderr),
                     narrowed: mk_narrow(vec![cfg.clone()]),
                 });
+                continue;
+            }
+            if hard_fault_excuses(&res, cfg, stats) {
                 continue;
             }
             if fault_active {
@@ -631,13 +679,16 @@ impl Check for C19Check {
         let mut stails: Vec<Vec<u8>> = Vec::new();
         for (ci, cfg) in scn.cfgs.iter().take(2).enumerate() {
             let argv: Vec<_> = Rng::new(cfg.argv_seed ^ 0x55).perm(paths.len()).into_iter().map(|k| paths[k].clone()).collect();
-            let env = RunEnv { hash_seed: Some(cfg.hash_seed), real_rayon: true, io_seed: cfg.io_seed, ..Default::default() };
+            let env = RunEnv { hash_seed: Some(cfg.hash_seed), real_rayon: true, io_seed: cfg.io_seed, io_hard: io_hard_of(cfg, &paths), ..Default::default() };
             let extra: Vec<&str> = if cfg.verbose { vec!["--verbose"] } else { vec![] };
             stats.executions += 1;
             let res = run_binary("alpha-g-trg-scalers", &scratch.dir, &argv, &extra, &format!("sca{ci}"), &env);
             let narrowed = mk_narrow(vec![cfg.clone()]);
             if res.code.is_none() {
                 viol.push(Violation { invariant: "C19.no-crash".into(), signature: format!("scalers:signal:{fault_kind}"), detail: res.stderr, narrowed });
+                continue;
+            }
+            if hard_fault_excuses(&res, cfg, stats) {
                 continue;
             }
             if fault_active {
@@ -791,8 +842,44 @@ impl Check for C19Check {
                 s.cfgs[ci].io_seed = None;
                 push(s);
             }
+            if c.io_hard.is_some() {
+                let mut s = scn.clone();
+                s.cfgs[ci].io_hard = None;
+                push(s);
+            }
         }
         out
+    }
+}
+
+/// The hard I/O fault of a configuration in the shim's terms (read limits are a share of the
+/// bytes of all input files).
+fn io_hard_of(cfg: &RunCfg, paths: &[std::path::PathBuf]) -> Option<(bool, u64)> {
+    cfg.io_hard.map(|(write, n)| {
+        if write {
+            (true, n)
+        } else {
+            let total: u64 = paths.iter().map(|p| std::fs::metadata(p).map(|m| m.len()).unwrap_or(0)).sum();
+            (false, total * n.min(1000) / 1000)
+        }
+    })
+}
+
+/// A hard I/O fault (EIO on a read, ENOSPC on a write) that was actually delivered allows the
+/// program to fail - and nothing else: if it reports success all the same, every oracle of a
+/// fault-free run applies (a swallowed write error shows as missing rows). Returns true when
+/// the run needs no further checking.
+fn hard_fault_excuses(res: &crate::procsim::RunResult, cfg: &RunCfg, stats: &mut Stats) -> bool {
+    if !res.hard_fired {
+        return false;
+    }
+    stats.fault(if cfg.io_hard.map_or(false, |h| h.0) { "io_hard_enospc_while_writing_csv" } else { "io_hard_eio_while_reading_midas_file" });
+    if res.success {
+        stats.probe("hard_io_fault_delivered_but_program_reports_success");
+        false
+    } else {
+        stats.probe("hard_io_fault_makes_program_fail");
+        true
     }
 }
 
